@@ -275,6 +275,33 @@ Proof.
   apply IH. now apply Inv_step.
 Qed.
 
+(* The part of the invariant that survives changes of the element objects after the add (the
+   records keep their add-time lengths): header of 4 bytes, set length = 4 + the recorded
+   record lengths. *)
+Definition InvM (s : setb) : Prop := hdr4 s /\ s_len s = 4 + sum_rec_len (s_rrecs s).
+Lemma Inv_InvM s : Inv s -> InvM s.
+Proof. intros (A & B & _). split; assumption. Qed.
+
+Lemma InvM_step s o : InvM s -> InvM (fst (step s o)).
+Proof.
+  intros (H4 & HL). destruct o as [t id|f els id| |]; cbn [step].
+  - destruct t; cbn [fst create_header]; try (split; assumption);
+      match goal with |- context [put_at ?b ?i ?x] => destruct (put_at b i x) eqn:E end;
+      cbn [fst]; try (split; assumption);
+      (split; [|assumption]); unfold hdr4; cbn [s_hdr]; rewrite (put_at_length _ _ _ _ E); exact H4.
+  - destruct (build_record (s_type s) f els id) as [r| | |] eqn:E; cbn [fst]; try (split; assumption).
+    split; [exact H4|].
+    cbn [s_len s_rrecs sum_rec_len fold_right]. rewrite HL. unfold sum_rec_len. lia.
+  - destruct (put_at (s_hdr s) 2 (be 2 (s_len s))) eqn:E; cbn [fst]; try (split; assumption).
+    split; [|assumption]. unfold hdr4. cbn [s_hdr]. rewrite (put_at_length _ _ _ _ E). exact H4.
+  - cbn [fst]. split; reflexivity.
+Qed.
+Lemma InvM_run ops : forall s, InvM s -> InvM (run s ops).
+Proof.
+  unfold run. induction ops as [|o r IH]; intros s H; cbn [fold_left]; [exact H|].
+  apply IH. now apply InvM_step.
+Qed.
+
 (* (a) for every operation sequence whatsoever *)
 Theorem set_length_invariant ops :
   s_len (run new_set ops) = 4 + sum_rec_len (s_rrecs (run new_set ops)).
@@ -454,14 +481,14 @@ Definition all_buffers_ok (s : setb) : Prop :=
 
 (* CreateIPFIXMsg on a reachable set: refused exactly above the limit; otherwise the header,
    the set header and the record buffers, nothing else *)
-Theorem create_msg_spec s obs seq t :
-  Inv s -> all_buffers_ok s ->
+Theorem create_msg_spec_m s obs seq t :
+  InvM s -> all_buffers_ok s ->
   create_msg s obs seq t =
   if max_msg <? msg_hdr_len + s_len s then Err ErrTooBig
   else Ok ((be 2 10 ++ be 2 (msg_hdr_len + s_len s) ++ be 4 t ++ be 4 seq ++ be 4 obs)
            ++ s_hdr s ++ List.concat (map buf_of (s_recs s))).
 Proof.
-  intros (H4 & HL & HG) HB. unfold create_msg.
+  intros (H4 & HL) HB. unfold create_msg.
   destruct (max_msg <? msg_hdr_len + s_len s); [reflexivity|].
   rewrite msg_header_spec. cbn [obind].
   destruct (N.ltb_spec (msg_hdr_len + s_len s) (msg_hdr_len + set_header_len)) as [C|C].
@@ -476,8 +503,14 @@ Proof.
       by (now rewrite !app_length, !length_be).
     rewrite window_exact. rewrite <- H4, window_exact. reflexivity.
   - rewrite s_recs_rev in *. apply Forall_forall. intros r Hr.
-    assert (G : good_rec r). { rewrite Forall_forall in HG. apply HG. now apply in_rev. }
     unfold all_buffers_ok in HB. rewrite s_recs_rev, Forall_forall in HB. destruct (HB r Hr) as [b Eb].
-    pose proof (good_rec_buffer r G) as S. unfold buf_of. rewrite Eb in *. split; [reflexivity|exact S].
+    pose proof (rec_buffer_len r) as S. unfold buf_of. rewrite Eb in *. split; [reflexivity|exact S].
   - rewrite Hsum. unfold set_header_len. lia.
 Qed.
+Theorem create_msg_spec s obs seq t :
+  Inv s -> all_buffers_ok s ->
+  create_msg s obs seq t =
+  if max_msg <? msg_hdr_len + s_len s then Err ErrTooBig
+  else Ok ((be 2 10 ++ be 2 (msg_hdr_len + s_len s) ++ be 4 t ++ be 4 seq ++ be 4 obs)
+           ++ s_hdr s ++ List.concat (map buf_of (s_recs s))).
+Proof. intros H. apply create_msg_spec_m. now apply Inv_InvM. Qed.
